@@ -72,7 +72,7 @@ def build(spec, engine_cls=None, emitter=None, extra_steps=None, extra_topology=
     for p in spec['procs']:
         pid = p['pid']
         params = {'pid': pid, 'ts': p['ts'], 'cond': p.get('cond'), 'toggle': p.get('toggle', 0),
-                  'amount': p.get('amount', 1), 'amount2': p.get('amount2'), 'reset_at': p.get('reset_at'), 'tvar': p.get('tvar'), 'blob': p.get('blob'), 'pair': p.get('pair'), 'vec': p.get('vec'), 'timestep': 1.0}
+                  'amount': p.get('amount', 1), 'amount2': p.get('amount2'), 'reset_at': p.get('reset_at'), 'tvar': p.get('tvar'), 'blob': p.get('blob'), 'pair': p.get('pair'), 'tally': p.get('tally'), 'vec': p.get('vec'), 'timestep': 1.0}
         if p.get('fail_at') is not None:
             params['fail_at'] = p['fail_at']
         if p.get('cond_path'):
